@@ -50,7 +50,9 @@ def apply_odata_query(query: ClauseElement, odata_query: str) -> ClauseElement:
             str(required_join) not in existing_joins
             and str(required_join.key) not in existing_joins
         ):
-            query = query.join(required_join)
+            # An outer join, so that entities without the related entity are
+            # kept: their related fields simply behave as null.
+            query = query.join(required_join, isouter=True)
 
     return query.filter(where_clause)
 
